@@ -173,6 +173,9 @@ class HyReprModel(Model):
     def compare(self, ex, st, op, a, b):
         if isinstance(op, ast.In) and z3.is_expr(b) and b.sort() == IntSet:
             return z3.IsMember(a, b)
+        if isinstance(a, Obj) and a.kind == "type" or isinstance(b, Obj) and b.kind == "type":
+            # a test on the type of the argument (type(x) in (...), type(x) is list, ...): nothing is assumed about its outcome
+            return ex.fresh(z3.BoolSort(), "type_test")
         return NotImplemented
 
 
@@ -584,6 +587,9 @@ class AsModelModel(Model):
     def compare(self, ex, st, op, a, b):
         if isinstance(op, ast.In) and z3.is_expr(b) and b.sort() == IntSet:
             return z3.IsMember(a, b)
+        if isinstance(a, Obj) and a.kind == "type" or isinstance(b, Obj) and b.kind == "type":
+            # a test on the type of the argument (type(x) in (...), type(x) is list, ...): nothing is assumed about its outcome
+            return ex.fresh(z3.BoolSort(), "type_test")
         return NotImplemented
 
     def recursive(self, ex, st, what):
